@@ -228,6 +228,7 @@ def _lifecycle(cfl, ci, ei, second):
             fs2.handshake, fs2.poll_mode, fs2.post_mode, fs2.ws_mode, fs2.probe_reply = 'ok', 'normal', 'ok', 'ok', '3probe'
             fs2.upgrades = []
             fs2.outbox = []
+            fs2.link = None          # (the scripted server forgets the WebSocket of the first connection)
             cl.in_handler.clear()
             h2 = cl.call('connect', 'http://srv.example', transports=['polling'])
             k.run(until=k.now + 2)
@@ -245,6 +246,17 @@ def _lifecycle(cfl, ci, ei, second):
                 return fail(PROP, 'RECONNECT', 'second connection: the application sent one message, the server received packets %r' % (rx2,), **st)
             if cl.state() != 'connected' or [e for e in cl.events[nev:] if e[0] == 'disconnect']:
                 return fail(PROP, 'RECONNECT', 'second connection ended by itself: state %s events %r' % (cl.state(), cl.events[nev:]), **st)
+            # ... and it hears the server (messages and PINGs of the new session reach it)
+            fs2.push('4hello-again')
+            fs2.push('2again')
+            k.settle()
+            k.run(until=k.now + 1)
+            if [d_ for kind_, d_ in cl.events[nev:] if kind_ == 'message'] != ['hello-again']:
+                return fail(PROP, 'RECONNECT', 'second connection: the server sent a message, the handler got %r' % (
+                    [e for e in cl.events[nev:] if e[0] == 'message'],), **st)
+            if [d_ for tr, t, d_ in fs.received[nrx:] if t == 3 and d_].count('again') != 1:
+                return fail(PROP, 'RECONNECT', 'second connection: PING "again" answered with %r' % (
+                    [d_ for tr, t, d_ in fs.received[nrx:] if t == 3],), **st)
             cl.call('disconnect')
             k.run(until=k.now + HORIZON)
         return ''
